@@ -539,6 +539,55 @@ def replay(ctx, path):
     finally:
         b.cleanup()
 
+EXT_REC_MODULE = ("XR DEFINITIONS AUTOMATIC TAGS ::= BEGIN RChE ::= CHOICE { leaf INTEGER (0..255), ..., deeper RChE } "
+                  "RSqE ::= SEQUENCE { v INTEGER (0..255), ..., more RSqE OPTIONAL } END")
+
+def _oer_len(n):
+    if n < 128: return bytes([n])
+    d = n.to_bytes((n.bit_length() + 7) // 8, "big")
+    return bytes([0x80 | len(d)]) + d
+
+def _nest_open(depth, leaf, head):
+    """head(inner_length) -> header octets put in front of an inner encoding of that length; built outermost-first without
+    quadratic copying"""
+    sizes = [len(leaf)]
+    for _ in range(depth): sizes.append(len(head(sizes[-1])) + sizes[-1])
+    out = bytearray()
+    for k in range(depth, 0, -1): out += head(sizes[k - 1])
+    return bytes(out + leaf)
+
+def directed_ext_recursion(ctx):
+    """recursion that runs through an EXTENSION alternative / addition (an OER / UPER open type): nesting far beyond the default
+    stack limit must end in RC_FAIL with the default limit, never in RC_OK or a crash (each input in its own process)"""
+    names = ["RChE", "RSqE"]
+    b = bundle.Bundle("XR", EXT_REC_MODULE, names)
+    bad = []; n = 0
+    try:
+        exe = b.build()
+    except Exception as e:
+        ctx.module_not_built({"name": "XR-directed"}, e); b.cleanup(); return
+    try:
+        for depth in (3, 2000, 20000, 100000):
+            cases = [("RChE", "oer", _nest_open(depth, b"\x80\x05", lambda L: b"\x81" + _oer_len(L))),
+                     # RSqE: preamble 80 (extension bit), v, bitmap (1 addition: 02 07 80), addition as open type
+                     ("RSqE", "oer", _nest_open(depth, b"\x00\x05", lambda L: b"\x80\x05\x02\x07\x80" + _oer_len(L)))]
+            for tn, syn, data in cases:
+                n += 1; ctx.cov["evaluations"] += 1
+                r = subprocess.run(["bash", "-c", "ulimit -s 8192; exec \"$0\"", exe], input=f"@{tn} decq {syn} {data.hex()}\n",
+                                   capture_output=True, text=True, timeout=300)
+                o = (r.stdout.strip().split("\n") or [""])[0]
+                rc = o.split(" ")[0] if o else ""
+                want = "ok" if depth == 3 else "fail"
+                if r.returncode != 0 or rc != want:
+                    bad.append((tn, syn, depth, f"rc={r.returncode} out={o[:80]} err={r.stderr.strip()[-200:]}"))
+                else: ctx.count_nontrivial(("ext-recursion", tn, syn, depth))
+    finally:
+        b.cleanup()
+    ctx.cov["predicate"]["directed_ext_recursion"] = {"cases": n, "failures": len(bad)}
+    for tn, syn, depth, why in bad[:3]:
+        ctx.violation(f"C15 violated on C: {tn}/{syn} nesting {depth} through an extension (open type): expected RC_FAIL with the default stack limit, got {why}",
+                      {"module": EXT_REC_MODULE, "type": tn, "syntax": syn, "depth": depth, "outcome": why})
+
 def run(ctx):
     x, path = c15_translate.write()
     ctx.c15_default_max = x["defaultStackMax"] or 30000
@@ -551,6 +600,7 @@ def run(ctx):
     ctx.cov["rule"] = ("fixed module with recursive and collection types x adversarial inputs (nesting 10^2..10^5, maximal length prefixes, "
                        "zero-width elements with maximal counts, fragmented lengths), each decoded in its own process with an 8 MiB stack; "
                        "distinct = distinct (type, syntax, input class, outcome); non-trivial = the decoder reached the guarded/allocating code")
+    directed_ext_recursion(ctx)
     b, exe = build_bundle()
     try:
         _run(ctx, b, exe)
